@@ -21,7 +21,7 @@ func (c14) ID() string { return "C14" }
 
 func (c14) Budget(tier string) int {
 	if tier == "thorough" {
-		return 20000
+		return 60000
 	}
 	return 2400
 }
